@@ -9,6 +9,9 @@ pub open spec fn min_spec(a: usize, b: usize) -> usize { if a <= b { a } else { 
 // core::cmp::min on usize (rule R-misc)
 pub fn cmp_min(a: usize, b: usize) -> (r: usize) ensures r == min_spec(a, b) { if a <= b { a } else { b } }
 
+// rule R-panic: a function that may panic returns PanicOr; `ret is Panic <==> ..` is then an ordinary postcondition
+pub enum PanicOr<R> { Panic, Ret(R) }
+
 // ===================== engine-V prelude: provenance-carrying pointers and slices (TRUSTED) =====================
 // Rule R-ptr.  All offsets are in ELEMENTS of T (bytes = elements * size_of::<T>() is exactly C01's lemma).
 //   Sl  = a slice / array reference: `len` items of `stride` elements each, starting `off` elements into allocation `base`
@@ -57,8 +60,6 @@ pub fn deref(p: Ptr) -> (s: Sl)
     ensures s.base == p.base, s.off == p.off, s.len == 1, s.stride == p.stride,
 { unimplemented!() }
 
-// rule R-panic: a function that may panic returns PanicOr
-pub enum PanicOr<R> { Panic, Ret(R) }
 pub struct LengthError;
 
 proof fn lemma_chunks(l: usize, n: usize)
@@ -68,6 +69,15 @@ proof fn lemma_chunks(l: usize, n: usize)
     vstd::arithmetic::div_mod::lemma_fundamental_div_mod(l as int, n as int);
     assert((l / n) * n == n * (l / n)) by (nonlinear_arith);
 }
+
+// const_transmute: reading field `b` of `union { a: A, b: B }` after writing `a` reinterprets size_of::<B>() bytes, of which only
+// size_of::<A>() were written: defined only when the sizes agree (what mem::transmute checks at compile time)
+pub struct Bits { pub size: usize }
+#[verifier::external_body]
+pub fn union_reinterpret(a: Bits, size_b: usize) -> (b: Bits)
+    requires a.size == size_b,
+    ensures b.size == size_b,
+{ unimplemented!() }
 
 
 // ===== extracted: src/lib.rs =====
@@ -279,6 +289,17 @@ proof fn lemma_chunks(l: usize, n: usize)
             }
         };
         PanicOr::Ret(__r)
+    }
+
+    // extracted from src/lib.rs:676  `pub const unsafe fn const_transmute<A, B>(a: A) -> B`
+    pub fn const_transmute(a: Bits, size_b: usize) -> (ret: PanicOr<Bits>)
+        ensures
+            ret is Panic <==> a.size != size_b, /*OB:const_transmute.post.panics-iff-sizes-differ:C02,C10*/
+    {
+        if a.size != size_b {
+            return PanicOr::Panic;
+        }
+        PanicOr::Ret(union_reinterpret(a, size_b))
     }
 
 proof fn canary() { assert(false); } /*OB:canary:*/
